@@ -394,4 +394,16 @@ def run(ctx):
     from . import objects
     ctx.guard("hmac-keys", "expand/derive/create", lambda: objects.check_hmac_keys(ctx, P))
     ctx.guard("hmac", "Mac", lambda: objects.check_hmac_mac(ctx, P))
+    # the digests underneath: padding position and zero fill, length fields, sponge padding (structural rules shared with C01)
+    from . import C01 as _C01
+    ctx.guard("padding", "standard_padding", lambda: _C01.check_standard_padding(ctx, P))
+    ctx.guard("length-field", "md", lambda: _C01.check_length_fields(ctx, P))
+    ctx.guard("sponge-pad", "sha3", lambda: _C01.check_sponge_pad(ctx, P))
+    # the SHA-256 block function of the SIMD builds (a one-shot call batches 4 / 8 blocks, a split call does not): value-graph
+    # equality with FIPS 180-4, shared rule instances with C16 / C01
+    from . import sha2eq as _sha2eq
+    _g3 = []
+    _cases = {("K3", "hashing::sha2::impl256::sse41::digest_block"), ("K4", "hashing::sha2::impl256::avx::digest_block")}
+    ctx.guard("compress-eq", "sha256-simd", lambda: _g3.append(_sha2eq.check_sha256(ctx, {"K3": 1, "K4": 1}, cases=_cases)))
+    ctx.check(_g3 == [3], "floor", "compress-eq", "3 SIMD SHA-256 runs (4 and 4+1 blocks SSE4.1, 8 blocks AVX) equal the FIPS 180-4 compression", "only %s SIMD SHA-256 comparisons ran" % _g3, key="floor:compress-eq")
     ctx.not_decided += ["ROMix / BlockMix data flow and all derived key values", "the digests under HMAC (C01)"]
